@@ -150,6 +150,9 @@ GenFilter(n, ser, life, wk, tk, xk, pre, pretr, ro, nl) ==
            \/ (n = 1 /\ xk = "index" /\ wk \in {"put", "pull"} /\ tk = "none" /\ ~ser /\ life = 2
                  /\ pre[1] \in {"none", "corrupt_old"} /\ pretr[1] \in {"none", "live"})
            \/ (n = 1 /\ xk = "none" /\ wk = "pull" /\ tk \in {"delete", "list_eq"} /\ ~ser /\ life = 2 /\ notr)
+      [] Filter = "c02index" ->       \* GET /index || PUT, for checks/C02.py (index clause of C02)
+           n = 1 /\ xk = "index" /\ wk = "put" /\ tk = "none" /\ ~ser /\ life = 2
+           /\ pre[1] \in {"none", "corrupt_old"} /\ notr
       [] Filter = "thorough" ->
            \/ (n = 1 /\ xk = "none" /\ wk \in {"put", "touch"} /\ tk # "none" /\ notr)
            \/ (n = 2 /\ xk = "none" /\ wk \in {"put", "touch"} /\ tk \in {"delete", "list_eq"} /\ ~ser /\ life = 2 /\ notr
